@@ -141,6 +141,14 @@ def build_corpus(tier, rng):
         if rng.random() < 0.4 and it.variants:   # const_into_str on a zero-variant enum does not compile (`match self {}` on &Self); no value exists to query
             it.metas.append(EM("cis"))
         cands.append(("random", it))
+    # the SAME variant identifiers in several enums of one crate, under different styles: a name depends on the enum's own style only, not on
+    # which enum the compiler expanded first (eight copies per style put one copy of each style into every shard crate, in both orders)
+    shared = []
+    for sa, sb in ((None, "camelCase"), ("camelCase", None), (None, "snake_case"), ("PascalCase", "UPPERCASE")):
+        for sty in [sa] * 8 + [sb] * 8:
+            vs = [Variant("DarkRed", "unit"), Variant("LightGreen", "tuple", [Field("u8")]), Variant("Utf8Text", "named", [Field("u8", "f")]), Variant("HTTPCode2", "unit")]
+            shared.append(("shared-identifiers", Item("E", vs, metas=[EM("sall", sty)] if sty else [])))
+    cands = shared + cands          # first, so that the copies sit at consecutive definition numbers from 0
     infos = G.classify(ID, [it for _, it in cands])
     n = 0
     for (fam, it), info in zip(cands, infos):
